@@ -253,7 +253,13 @@ var hostileScalars = []string{"", "~", "null", "nan", ".nan", ".NaN", ".inf", "-
 var hostileTags = []string{"!!float", "!!int", "!!bool", "!!null", "!!str", "!!binary", "!!map", "!!seq", "!foo", "!", "!!timestamp", "!!merge", "!!set", "!!omap"}
 
 func hostileNode(t *rapid.T, depth int) *ye.Node {
-	switch rapid.IntRange(0, 14).Draw(t, "hk") {
+	switch rapid.IntRange(0, 15).Draw(t, "hk") {
+	case 15: // separator soup: what the parsers of uses / image / cron / glob / port values split on
+		var b strings.Builder
+		for i := rapid.IntRange(1, 10).Draw(t, "nsoup"); i > 0; i-- {
+			b.WriteString(rapid.SampledFrom([]string{"a", "b", "v1", "/", "@", ".", "..", ":", "-", "~", "\\", "*", " ", "#", "./", "docker://", "=", ",", "|", "%", "+", "0", "9"}).Draw(t, "soup"))
+		}
+		return ye.Q(b.String(), rapid.SampledFrom([]ye.Style{ye.Single, ye.Double}).Draw(t, "soupst"))
 	case 14: // nodes that are null in some sense
 		return &ye.Node{Kind: ye.Scalar, Raw: rapid.SampledFrom([]string{"!!null {}", "!!null []", "!!null ''", "&anc", "*anc", "~", "null", "", "!!null x", "!!null [a]"}).Draw(t, "nullish")}
 	case 0, 1, 2:
@@ -390,6 +396,25 @@ func hostileMutate(t *rapid.T, root *ye.Node, n int, focus ...*ye.Node) []string
 				k += "mapping"
 			}
 			kinds = append(kinds, k)
+		case 5: // separator soup as the value of a key whose value actionlint takes apart
+			var cs []slot
+			for _, o := range slots {
+				if !o.isKey && o.parent.Kind == ye.Map && o.idx < len(o.parent.Keys) {
+					switch o.parent.Keys[o.idx].Val {
+					case "uses", "image", "cron", "shell", "entrypoint", "args", "working-directory", "url", "name", "group", "type", "default", "timeout-minutes", "max-parallel", "runs-on", "needs", "options":
+						cs = append(cs, o)
+					}
+				}
+			}
+			if len(cs) > 0 {
+				o := cs[rapid.IntRange(0, len(cs)-1).Draw(t, "soupslot")]
+				var b strings.Builder
+				for i := rapid.IntRange(1, 8).Draw(t, "nsoup"); i > 0; i-- {
+					b.WriteString(rapid.SampledFrom([]string{"a", "b", "v1", "/", "@", ".", "..", ":", "-", "~", "\\", "*", " ", "./", "docker://", "=", ",", "0", "9"}).Draw(t, "soup"))
+				}
+				o.parent.Vals[o.idx] = ye.Q(b.String(), rapid.SampledFrom([]ye.Style{ye.Single, ye.Double}).Draw(t, "soupst"))
+				kinds = append(kinds, "separator-soup@"+o.parent.Keys[o.idx].Val)
+			}
 		case 1: // delete entry
 			if s.parent.Kind == ye.Map && len(s.parent.Keys) > 0 {
 				s.parent.Keys = append(s.parent.Keys[:s.idx:s.idx], s.parent.Keys[s.idx+1:]...)
@@ -716,6 +741,40 @@ func TestC01(t *testing.T) {
 			cc.Caller = caller
 			run(rt, cc, kinds, true)
 		})
+		// every string up to length 5 (thorough 6) over {a / @ . : -} as the value of a step-level and a
+		// job-level `uses:` (the spec parsers slice these strings by the positions of / and @)
+		{
+			alpha := []string{"a", "/", "@", ".", ":", "-"}
+			maxLen := hx.N(5, 6)
+			idx, nuses := 0, int64(0)
+			var rec func(cur string, depth int)
+			rec = func(cur string, depth int) {
+				if depth > 0 {
+					idx++
+					if idx%hx.P.NShards == hx.P.Shard {
+						y := "on: push\njobs:\n  a:\n    runs-on: ubuntu-latest\n    steps:\n      - uses: '" + cur + "'\n  b:\n    uses: '" + cur + "'\n"
+						c := newC01Case("workflow", []byte(y))
+						r.LastCase("C01/input", c)
+						k, m, _ := c01Run(c)
+						r.Eval()
+						r.NTSeq(1)
+						nuses++
+						if k != "" {
+							r.Report(k, m, "C01/input", c)
+						}
+					}
+				}
+				if depth == maxLen {
+					return
+				}
+				for _, a := range alpha {
+					rec(cur+a, depth+1)
+				}
+			}
+			rec("", 0)
+			r.Extra["uses_values_enumerated"] = nuses
+			r.Class("exhaustive/uses-values")
+		}
 		r.Check(t, "config", hx.N(1000, 10000), func(rt *rapid.T) {
 			root := configBase(rt)
 			kinds := hostileMutate(rt, root, rapid.IntRange(1, 4).Draw(rt, "nmut"))
